@@ -19,7 +19,7 @@ RULE = ('ops: sequences of <= 30 operations (add_node, add_edge, add_edges_from_
         'with injective dicts) on <= 6 live nodes (indices < 12) and 4 pooled products, plus a malformed stream (unknown '
         'node/product indices, incomplete reindex dict) ended at the first exception; one case per operation prefix. '
         'builders: every builder x argument shape (None, scalar, list with/without node_order_in_lists, dict, per-node '
-        'None entries) x sizes <= 5 x labelling (default or random). levels: serial systems of 1..7 nodes, random labelling, '
+        'None entries) x sizes <= 5 x labelling (default or random); attribute values include 0 and 0.0 (kept distinct from None), up to 4 further copied attributes per case (oracle only, incl. the holding_cost / lead_time alias keywords and round_to_int=False) and a systematic sweep placing exactly 0 / False at one node for every copied attribute x shape x builder. levels: serial systems of 1..7 nodes, random labelling, '
         'levels k/4. non-trivial = the network after the prefix has >= 2 nodes and >= 1 arc (ops), >= 2 nodes (builders, levels); '
         'distinct = distinct canonical structure (ops) / distinct argument tuple (builders, levels).')
 
